@@ -111,6 +111,26 @@ pub fn exec(f: &[&str]) -> Vec<String> {
             }
             format!("OK accepted=1 x {}", n)
         }
+        "ttl" => {
+            // witness of a salt cache TTL shorter than the acceptance span: a request stamped now+30 is accepted, and accepted
+            // AGAIN after `threads` seconds of real time (the cache uses the monotonic clock) although its timestamp is still
+            // within 30 s of the (hooked) wall clock.  Only run when the tie-A obligation TTL >= 2 x window is broken.
+            let wait = threads as u64;
+            let mut rng = Rng::new(seed);
+            let key: [u8; 32] = rng.bytes(32).try_into().unwrap();
+            let shared = Context::new(key, vec![], CipherKind::Aead2022Blake3Aes256Gcm, None);
+            let t0: i64 = 1_790_000_000;
+            octo_squirrel::verif_clock::set(Some(t0 + 30));
+            let (wire, _) = request(&mut rng, key, b"stamped 30 s ahead");
+            octo_squirrel::verif_clock::set(Some(t0));
+            let a = serve(&shared, &wire).is_ok();
+            let b = serve(&shared, &wire).is_ok();
+            std::thread::sleep(std::time::Duration::from_secs(wait));
+            octo_squirrel::verif_clock::set(Some(t0 + wait as i64));
+            let c = serve(&shared, &wire).is_ok();
+            octo_squirrel::verif_clock::set(None);
+            format!("first={} replay_at_once={} replay_after_{}s={}", a, b, wait, c)
+        }
         "evict" => {
             // KNOWN FINDING F-10d probe: the salt cache holds `threads` (= capacity, 102400) entries; after that many other
             // accepted handshakes within the TTL the first salt has been evicted and its replay is accepted again
